@@ -203,7 +203,10 @@ def _apply_attrs(p, node):
     if "mode" in node and t != "l":
         os.chmod(p, node["mode"])
     if "mtime" in node:
-        os.utime(p, (node.get("atime", node["mtime"]), node["mtime"]), follow_symlinks=False)
+        # integer or fractional seconds (fractions are written with nanosecond precision)
+        m_ns = int(round(node["mtime"] * 1000)) * 1000000
+        a_ns = int(round(node.get("atime", node["mtime"]) * 1000)) * 1000000
+        os.utime(p, ns=(a_ns, m_ns), follow_symlinks=False)
 
 
 # ---------------------------------------------------------------- spec walk
@@ -245,7 +248,9 @@ ATTR_GIDS = [0, 0, 100, 65534]
 # mtime grid (UTC): around 2020-01-01 .. 2020-01-03 with second-level neighbours and ties
 ATTR_MTIMES = [1577836800 - 1, 1577836800, 1577836800 + 1, 1577836800 + 43200, 1577836800 + 86399,
                1577836800 + 86400, 1577836800 + 86400 + 3600, 1577836800 + 2 * 86400 + 59, 1583020800,
-               1577836800 + 43200, 1500000000, 1609459199, 1609459200]
+               1577836800 + 43200, 1500000000, 1609459199, 1609459200,
+               # sub-second parts: the column shows whole seconds and literals denote whole seconds
+               1577836800 + 0.5, 1577836800 + 86399.999, 1577836800 - 0.25, 1609459199.75, 1577836800 + 86400 + 0.001]
 ATTR_FILE_NAMES = ["a", "b.txt", "c.txt", "d.log", "e.LOG", "f.tar.gz", "README", "main.rs", "lib.rs", "x.bin",
                    "size", "name", "mode", "bin", ".hid", ".cfg.toml", "UP.TXT", "n10", "n9", "n100", "zz.md",
                    "k.c", "k.h", "long-file-name.txt", "s p.txt", "0", "1", "true"]
